@@ -417,7 +417,7 @@ func c03Try(c *fw.Ctx, cs c03Case, stream []byte, t recv.Trace) (class string, d
 	var obs xportObs
 	var conn *websocket.Conn
 	panicked := fw.Recover(func() {
-		conn = websocket.VerifNewConn(script, cs.Client, xportComp(cs.Comp), 0)
+		conn = websocket.VerifNewConn(script, cs.Client, xportComp(cs.Comp, cs.Client), 0)
 		obs = xportReadAll(context.Background(), conn, cs.Buf)
 	})
 	if conn != nil {
